@@ -143,6 +143,13 @@ func c12sScenarios(thorough bool) []c12sScenario {
 			}
 		}
 	}
+	// read index confirmed at an index that is not applied yet: must not complete
+	for _, st := range [][]string{{"hr", "r7"}, {"hr", "r7", "tg"}} {
+		for _, ap := range [][]string{nil, {"ar"}} {
+			add("read", false, [][]string{c12sCR1}, st, nil, ap, nil)
+		}
+	}
+	add("read", false, [][]string{c12sCR1}, []string{"hr", "r7"}, nil, []string{"ar"}, []string{"cl"})
 	// cross-kind pool reuse, two clients
 	for _, k := range cl {
 		add("cross", false, [][]string{c12sCPR}, []string{"hp", "hr", "rr"}, nil, []string{"ap"}, k)
@@ -492,7 +499,11 @@ func (w *c12sWorld) stepperBody(prog []string) func() {
 					b.addSeq = w.seq()
 					w.mu.Unlock()
 				}
-			case "rr": // processReadyToRead
+			case "rr", "r7": // processReadyToRead: ReadyToRead{ctx, index} with index 5 (= applied) or 7 (> applied)
+				idx := uint64(5)
+				if op == "r7" {
+					idx = 7
+				}
 				w.mu.Lock()
 				if len(w.batches) == 0 {
 					w.mu.Unlock()
@@ -501,11 +512,11 @@ func (w *c12sWorld) stepperBody(prog []string) func() {
 				b := w.batches[len(w.batches)-1]
 				if b.readySeq == 0 {
 					b.readySeq = w.seq()
-					b.readyIdx = 5
+					b.readyIdx = idx
 				}
 				w.appliedIdx = append(w.appliedIdx, c12sApplied{value: 5, seq: w.seq()})
 				w.mu.Unlock()
-				w.pri.addReady([]pb.ReadyToRead{{Index: 5, SystemCtx: b.ctx}})
+				w.pri.addReady([]pb.ReadyToRead{{Index: idx, SystemCtx: b.ctx}})
 				w.pri.applied(5)
 			case "dr": // processDroppedReadIndexes
 				w.mu.Lock()
